@@ -740,7 +740,7 @@ pub fn times() -> Vec<Case<UtcDateTime>> {
         s("pre_epoch", t(-999_999_999)),
         c("pre_epoch_whole_second", t(-86_400_000_000_000)),
         c("year_1", t(T_YEAR1)),
-        c("year_9999_last_nanosecond", t(T_YEAR9999)),
+        s("year_9999_last_nanosecond", t(T_YEAR9999)),
         c("year_minus_9999", t(T_MIN)),
         c("same_instant_offset_plus2", plus2.into()),
     ]
@@ -789,7 +789,8 @@ pub fn pack24(len: usize, salt: u8) -> AeadPack {
 
 pub fn packs() -> Vec<Case<AeadPack>> {
     let mut out = vec![];
-    for len in [0usize, 1, 33, 300] {
+    let lens: Vec<usize> = if deep() { vec![0, 1, 33, 300, 65_536, 1 << 20] } else { vec![0, 1, 33, 300, 65_536] };
+    for len in lens {
         out.push(Case {
             label: format!("nonce12_len{}", len),
             value: pack12(len, 1),
@@ -915,10 +916,11 @@ pub fn record(i: u8, len: usize) -> EventRecord {
 pub fn records() -> Vec<Case<EventRecord>> {
     let mut out = vec![];
     for tc in times() {
-        out.push(c(
-            format!("time_{}", tc.label),
-            EventRecord::new(tc.value, hash(3), hash(4), blob(5, 1)),
-        ));
+        out.push(Case {
+            seed: tc.label == "year_9999_last_nanosecond",
+            label: format!("time_{}", tc.label),
+            value: EventRecord::new(tc.value, hash(3), hash(4), blob(5, 1)),
+        });
     }
     if deep() {
         for tc in times() {
@@ -1141,6 +1143,12 @@ pub fn rich_meta(kind: SecretType, n: u8) -> SecretMeta {
     meta(kind, &format!("rich ラベル {}", n), 2, true, true, true, true, t_nanos(), t_other())
 }
 
+/// Rich meta data with a single tag: its encoding does not depend on
+/// HashSet iteration order (used for mutation seeds).
+pub fn rich_meta_one_tag(kind: SecretType, n: u8) -> SecretMeta {
+    meta(kind, &format!("rich ラベル {}", n), 1, true, true, true, true, t_nanos(), t_other())
+}
+
 pub fn plain_meta(kind: SecretType, n: u8) -> SecretMeta {
     meta(kind, &format!("plain {}", n), 0, false, false, false, false, t_epoch(), t_epoch())
 }
@@ -1168,6 +1176,7 @@ pub fn metas() -> Vec<Case<SecretMeta>> {
     for (ki, kind) in ALL_KINDS.iter().enumerate() {
         out.push(c(format!("kind{}_plain", ki), plain_meta(*kind, ki as u8)));
     }
+    out.push(c("label_64k", meta(SecretType::Note, &"läbel64k".repeat(64 * 1024 / 9), 1, false, false, false, false, t_epoch(), t_epoch())));
     let dates = [
         ("epoch_nanos", t_epoch(), t_nanos()),
         ("nanos_y9999", t_nanos(), t(T_YEAR9999)),
@@ -1189,7 +1198,7 @@ pub fn metas() -> Vec<Case<SecretMeta>> {
                                     out.push(Case {
                                         label: format!("{:?}_verify{}_label{}_tags{}_fav{}_urn{}_owner{}_{}", kind, verify, li, tags, favorite, urn, owner, dl),
                                         value: meta(kind, label, tags, favorite, urn, owner, verify, dc.clone(), du.clone()),
-                                        seed: kind == SecretType::Account && verify && li == 2 && tags == 2 && favorite && urn && owner && *dl == "epoch_nanos",
+                                        seed: kind == SecretType::Account && verify && li == 2 && tags == 1 && favorite && urn && owner && *dl == "epoch_nanos",
                                     });
                                 }
                             }
@@ -1245,6 +1254,15 @@ pub fn secret_bases() -> Vec<(String, bool, Secret)> {
     for (i, text) in NAMES.iter().enumerate() {
         out.push((format!("note_text{}", i), i == 2, Secret::Note { text: ss(text), user_data: ud0() }));
     }
+    let big = "64k ✓ ".repeat(64 * 1024 / 8);
+    out.push(("note_text_64k".into(), false, Secret::Note { text: ss(&big), user_data: ud0() }));
+    if deep() {
+        let mib = "1MiB-é|".repeat(1024 * 1024 / 8);
+        out.push(("note_text_1mib".into(), false, Secret::Note { text: ss(&mib), user_data: ud0() }));
+        out.push(("page_1mib".into(), false, Secret::Page { title: big.clone(), mime: "text/plain".into(), document: ss(&mib), user_data: ud0() }));
+        let buf = blob(1024 * 1024, 3);
+        out.push(("file_embedded_1mib".into(), false, Secret::File { content: FileContent::Embedded { name: "big.bin".into(), mime: "application/octet-stream".into(), checksum: CommitTree::hash(&buf), buffer: sb(buf) }, user_data: ud0() }));
+    }
     for (i, len) in [0usize, 3, 300].into_iter().enumerate() {
         let buf = blob(len, 9);
         out.push((
@@ -1297,7 +1315,7 @@ pub fn secret_bases() -> Vec<(String, bool, Secret)> {
         if n >= 2 {
             items.insert("".to_string(), ss(""));
         }
-        out.push((format!("list_items{}", n), n == 2, Secret::List { items, user_data: ud0() }));
+        out.push((format!("list_items{}", n), n == 1, Secret::List { items, user_data: ud0() }));
     }
     let certs = pem::parse_many(CERT).expect("pem fixture");
     let mut with_header = pem::Pem::new("PRIVATE KEY", blob(70, 3));
@@ -1436,6 +1454,9 @@ pub fn user_datas() -> Vec<(String, UserData)> {
         u.set_recovery_note(note.map(|s| s.to_string()));
         u
     };
+    // mutation seed shape: rich (single tag) then plain, comment and note
+    let seed_field = SecretRow::new(uid(101), rich_meta_one_tag(SecretType::Note, 1), field_secret(0));
+    out.push(("seed_shape".into(), mk(vec![seed_field, field(2, 2, false)], Some("c"), Some("n"))));
     out.push(("comment_only".into(), mk(vec![], Some("a cömment"), None)));
     out.push(("note_only".into(), mk(vec![], None, Some("recovery nöte"))));
     out.push(("comment_and_note".into(), mk(vec![], Some(""), Some("n"))));
@@ -1478,7 +1499,7 @@ pub fn secrets() -> Vec<Case<Secret>> {
             out.push(Case {
                 label: format!("{}/{}", bl, ul),
                 value: sct,
-                seed: seed && ul == "rich_then_plain",
+                seed: seed && ul == "seed_shape",
             });
         }
     }
@@ -1495,9 +1516,12 @@ pub fn secret_rows() -> Vec<Case<SecretRow>> {
             out.push(Case {
                 label: format!("{}_rowmeta_rich{}", cs.label, rich),
                 value: SecretRow::new(uid(150), if rich { rich_meta(kind, 0) } else { plain_meta(kind, 0) }, cs.value.clone()),
-                seed: rich && cs.label.starts_with("note_"),
+                seed: false,
             });
         }
+    }
+    if let Some(cs) = secrets().into_iter().find(|c| c.label == "note_text2/seed_shape") {
+        out.push(s("seed_row", SecretRow::new(uid(151), rich_meta_one_tag(SecretType::Note, 0), cs.value)));
     }
     out
 }
@@ -1794,7 +1818,7 @@ pub fn create_sets() -> Vec<Case<CreateSet>> {
                         out.push(Case {
                             label: format!("identity{}_account{}_device{}_files{}_folders{}", a, b, cc, d, folders),
                             value: CreateSet { identity: patch(a, 1), account: patch(b, 2), device: patch(cc, 3), files: patch(d, 4), folders: f },
-                            seed: a == 1 && b == 2 && cc == 0 && d == 1 && folders == 2,
+                            seed: a == 1 && b == 2 && cc == 0 && d == 1 && folders == 1,
                         });
                     }
                 }
@@ -1826,7 +1850,7 @@ pub fn update_sets() -> Vec<Case<UpdateSet>> {
                         out.push(Case {
                             label: format!("identity{}_account{}_device{}_files{}_folders{}", a, b, cc, d, folders),
                             value: UpdateSet { identity: opt_diff(a), account: opt_diff(b), device: opt_diff(cc), files: opt_diff(d), folders: f },
-                            seed: a == 1 && b == 0 && cc == 2 && d == 1 && folders == 2,
+                            seed: a == 1 && b == 0 && cc == 2 && d == 1 && folders == 1,
                         });
                     }
                 }
@@ -1856,9 +1880,9 @@ pub fn tracked(bits: u8) -> TrackedChanges {
     }
     if bits & 16 != 0 {
         tc.folders.insert(uid(20), IndexSet::from([TrackedFolderChange::Updated(uid(21)), TrackedFolderChange::Created(uid(22))]));
-        tc.folders.insert(uid(19), IndexSet::from([TrackedFolderChange::Deleted(uid(23))]));
     }
     if bits & 32 != 0 {
+        tc.folders.insert(uid(19), IndexSet::from([TrackedFolderChange::Deleted(uid(23))]));
         tc.folders.insert(uid(18), IndexSet::new());
     }
     tc
